@@ -275,7 +275,7 @@ func c16(ctx *Ctx) (*Outcome, error) {
 		ta, tb := mk(), mk()
 		j.pairs = append(j.pairs, optPair{kind: "tags", a: append(append([]string{}, base...), "--tags", strings.Join(ta, ",")), b: append(append([]string{}, base...), "--tags", strings.Join(tb, ",")), tagA: ta, tagB: tb})
 		nb := without(base, "--capitalization", true)
-		j.pairs = append(j.pairs, optPair{kind: "capitalization", a: nb, b: append(append([]string{}, nb...), "--capitalization", sg.PickOf(r, []string{"ID", "URL,HTTP", "ID,URL,HTTP,Id", "CASE,Alpha"}))})
+		j.pairs = append(j.pairs, optPair{kind: "capitalization", a: nb, b: append(append([]string{}, nb...), "--capitalization", sg.PickOf(r, []string{"ID", "URL,HTTP", "ID,URL,HTTP,Id", "CASE,Alpha", "PROPERTIES", "ADDITIONAL", "PLAIN,Elem", "JSON,YAML", "VALUE,unmarshal"}))})
 		nt := without(base, "--struct-name-from-title", false)
 		j.pairs = append(j.pairs, optPair{kind: "struct-name-from-title", a: nt, b: append(append([]string{}, nt...), "--struct-name-from-title")})
 		j.pairs = append(j.pairs, optPair{kind: "schema-root-type", a: base, b: append(append([]string{}, base...), "--schema-root-type", "https://example.com/opt=Renamed")})
